@@ -757,6 +757,7 @@ func (am *AccountingManager) sendAccountingStopSync(ctx context.Context, session
 		return
 	}
 
+	am.verifCrashPoint(19, session.SessionID)
 	// Acknowledged: drop the persisted session, otherwise the next startup takes it for an
 	// orphan and sends a second Accounting-Stop for it.
 	am.removePersistedSession(session.SessionID)
